@@ -64,7 +64,7 @@ class Folder:
 def cstr(b): return b + b"\0"
 
 def build_cab(folders_parts, files, set_id=0x1234, set_index=0, hres=None, fres=b"", dres=b"", prev=None, nxt=None,
-              with_ck=True, flags_extra=0, version=(3, 1), cabsize_override=None):
+              with_ck=True, flags_extra=0, version=(3, 1), cabsize_override=None, gaps=(0, 0, 0)):
     """folders_parts: list of (comp_type, [cfdata bytes already built WITHOUT reserve handling? no: list of (payload, ulen)])
        files: list of (name, length, offset, folder_index_field, date, time, attribs).  Returns bytes of one cabinet."""
     flags = flags_extra | (1 if prev else 0) | (2 if nxt else 0) | (4 if hres is not None else 0)
@@ -76,14 +76,19 @@ def build_cab(folders_parts, files, set_id=0x1234, set_index=0, hres=None, fres=
     ftab = b"".join(struct.pack("<IIHHHH", ln, off, fidx, date, time, attr) + cstr(name) for (name, ln, off, fidx, date, time, attr) in files)
     head_len = 36 + len(body)
     fold_len = nfold * (8 + (len(fres) if hres is not None else 0))
-    files_off = head_len + fold_len
-    data_off = files_off + len(ftab)
+    # the header says where the file table starts and every folder where its data starts: the tables need not be packed back to back
+    # gaps = (bytes between folder table and file table, between file table and data, between the data of two folders)
+    g0, g1, g2 = gaps
+    files_off = head_len + fold_len + g0
+    data_off = files_off + len(ftab) + g1
     fold = b""; data = b""
-    for ct, parts in folders_parts:
+    for fi_, (ct, parts) in enumerate(folders_parts):
+        if fi_ > 0: data += bytes((7 * k + 1) & 255 for k in range(g2))
         fold += struct.pack("<IHH", data_off + len(data), len(parts), ct) + (fres if hres is not None else b"")
         for (payload, ulen) in parts:
             data += cfdata(payload, ulen, dres if hres is not None else b"", with_ck)
     total = data_off + len(data)
+    fold += bytes((3 * k + 2) & 255 for k in range(g0)); ftab += bytes((5 * k + 3) & 255 for k in range(g1))
     hdr = struct.pack("<4sIIIIIBBHHHHH", b"MSCF", 0, total if cabsize_override is None else cabsize_override, 0, files_off, 0, version[0], version[1],
                       nfold, len(files), flags, set_id, set_index)
     return hdr + body + fold + ftab + data
